@@ -54,6 +54,10 @@ package loader
 //@   property C07
 //@   may_panic
 //@   modifies anything()
+//-  the only constraint object an inheriting object shares with the inherited type is the additionalProperties rule;
+//-  lists such as the required keys are copied key by key into a list of the object's own (a new one if it had none),
+//-  so extending one object never changes another one's list
+//@   at call:AddConstraint assert typeis(arg1, *constraint.AdditionalProperties) || (typeis(arg1, *constraint.RequiredKeys) && fresh(unbox(arg1, *constraint.RequiredKeys)))
 //@   loop#1 invariant true
 //@   loop#2 invariant true
 //@   loop#3 invariant true
